@@ -212,6 +212,9 @@ func runC02(c *core.Ctx) {
 		t := dyn.Types[rnd.Intn(dyn.NBuiltin)]
 		ch := rnd.Range(1, 8)
 		k := rnd.Range(4, 64)
+		if i%10 == 9 {
+			k = rnd.Range(300, 5000)
+		}
 		l := rnd.Range(0, k)
 		caseID := fmt.Sprintf("walk/%d", i)
 		if !c.Want(caseID) {
